@@ -49,7 +49,8 @@ def make_case(i, rng, tier):
                 if rng.random() < 0.5:
                     vals = D.type_info(g["type"])[1]
                     pairs.insert(rng.randrange(len(pairs) + 1), (rng.choice(g["alias_from"]), rng.choice(vals)))
-    return {"decl": decl, "inputs": inputs, "route": rng.choice(["runtime", "runtime", "class"])}
+    # "runtime-bare": the runtime options carry the strategy only, i.e. they REPLACE the options the class was declared with
+    return {"decl": decl, "inputs": inputs, "route": rng.choice(["runtime", "runtime", "class", "runtime-bare"])}
 
 
 def views(obj, decl):
@@ -94,7 +95,8 @@ def call(target, decl, data, opts_extra):
         if opts_extra is None:
             inst = target.__from__(data)
         else:
-            inst = target.__from__(data, options=D.make_options(decl["options"], **opts_extra))
+            bare = opts_extra.pop("__bare__", False) if "__bare__" in opts_extra else False
+            inst = target.__from__(data, options=D.make_options({} if bare else decl["options"], **opts_extra))
         return views(inst, decl)
     return run(thunk)
 
@@ -196,9 +198,10 @@ def run_case(case, ctx):
             data = D.to_mapping(pairs)
             if decl["base"] == "function" and not all(isinstance(k, str) for k in data):
                 continue
+            bare = {"__bare__": True} if case["route"] == "runtime-bare" else {}
             if runtime:
-                a = call(TA, decl, dict(data), {"data_first_search": True})
-                b = call(TB, decl, dict(data), {"data_first_search": False})
+                a = call(TA, decl, dict(data), dict(bare, data_first_search=True))
+                b = call(TB, decl, dict(data), dict(bare, data_first_search=False))
             else:
                 a = call(TA, decl, dict(data), None)
                 b = call(TB, decl, dict(data), None)
@@ -206,7 +209,7 @@ def run_case(case, ctx):
             if a.kind == "escape" or b.kind == "escape":
                 # a non-ParseError is C04's subject; it is still compared as a failure kind here
                 ctx.count("escape_seen")
-            wit = {"declaration": D.describe(decl), "input": short(data, 300), "route": "runtime-options" if runtime else "class-options",
+            wit = {"declaration": D.describe(decl), "input": short(data, 300), "route": ("runtime-options-replacing-the-class-options" if case["route"] == "runtime-bare" else "runtime-options") if runtime else "class-options",
                    "data_first": repr(a), "field_first": repr(b)}
             fs = features(decl, plan, pairs)
             sig = (shp, tuple(sorted((k, str(v)) for k, v in plan.items())), a.ok, b.ok)
@@ -224,8 +227,8 @@ def run_case(case, ctx):
             else:
                 # both fail: compare kinds through collect_errors
                 if runtime:
-                    ac = call(TAc, decl, dict(data), {"data_first_search": True, "collect_errors": True})
-                    bc = call(TBc, decl, dict(data), {"data_first_search": False, "collect_errors": True})
+                    ac = call(TAc, decl, dict(data), dict(bare, data_first_search=True, collect_errors=True))
+                    bc = call(TBc, decl, dict(data), dict(bare, data_first_search=False, collect_errors=True))
                 else:
                     ac = call(TAc, decl, dict(data), None)
                     bc = call(TBc, decl, dict(data), None)
